@@ -637,7 +637,16 @@ def run_prop(prop: Prop, tier: str, seed: int) -> int:
         ctx.notes.append(f"{n_spec} cases from TLC-generated behaviours, {len(gens) - n_spec} from seeded random drivers")
         recs = []
         harness_exc = []
-        for g in gens:
+        t_exec = time.time()
+        budget = float(os.environ.get("VERIF_EXEC_BUDGET", "900" if tier == "quick" else "21600"))
+        truncated = 0
+        for gi, g in enumerate(gens):
+            if gi % 64 == 0 and time.time() - t_exec > budget:
+                # a changed library may make every case slower and slower (unbounded growth of shared state);
+                # judge what was executed and report the rest as not executed
+                truncated = len(gens) - gi
+                ctx.notes.append(f"execution budget of {budget:.0f}s exhausted: {truncated} of {len(gens)} cases were not executed")
+                break
             try:
                 r = prop.execute(g)
             except MachineryError:
@@ -669,6 +678,9 @@ def run_prop(prop: Prop, tier: str, seed: int) -> int:
         if harness_exc:
             ctx.notes.append(f"{len(harness_exc)} cases raised inside the driver: {harness_exc[0][0]}")
         rc = finish(ctx)
+        if truncated and rc == 0:
+            print(f"MACHINERY-ERROR property={prop.id}: execution budget exhausted, {truncated} cases not executed and no violation among the executed ones")
+            return 2
         if harness_exc and rc == 0:
             # no verdict may be drawn from cases the driver could not execute or project
             print(f"MACHINERY-ERROR property={prop.id}: {len(harness_exc)} cases raised inside the driver, first: "
